@@ -97,8 +97,14 @@ def handle (line : String) : String :=
     match Sim.load p0 (unhex file) with
     | none => "load-precondition"
     | some p =>
+      let traceTxt (q : Proc) : String :=
+        if tracing = "1" then
+          " T=" ++ ";".intercalate (q.traceLog.reverse.map fun l =>
+            let sym := match l.symbol with | some (n, o) => s!"{n}+{o.toNat}" | none => "-"
+            s!"{l.cycles},{l.pc.toNat},{sym},{l.mnemonic},{l.operand}")
+        else ""
       let fin (kind : String) (c : Word) (q : Proc) : String :=
-        s!"{kind} {natToHex c.toNat} {fmtProc q} {q.cycles} {memDigest q.memory} {tohex (stdoutOf q.io)} {inBytes.length - q.io.stdin.length} {outFiles q.io}"
+        s!"{kind} {natToHex c.toNat} {fmtProc q} {q.cycles} {memDigest q.memory} {tohex (stdoutOf q.io)} {inBytes.length - q.io.stdin.length} {outFiles q.io}{traceTxt q}"
       match Sim.run (if mc = 0 then fuelN else mc + 2) p with
       | .returned c q => fin "ret" c q
       | .outOfFuel q => fin "fuel" q.exitCode q
